@@ -10,11 +10,15 @@ from . import cachecommon as CC
 from . import common as C
 
 TRUSTED = CC.TRUSTED_COMMON + [
-    "C05 stage O compares list-returning readers as multisets plus 'no record inserted by a later datagram precedes one inserted by an "
-    "earlier datagram'; the order of records inserted by one datagram is only compared against the Lean model (stage C)",
+    "C05 stage O compares list-returning readers as multisets and accepts any match from get_by_details (the sentence says 'the same records "
+    "with the same creation time and TTL'); the order of records in a list, and which match get_by_details picks (the latest inserted), are "
+    "compared against the Lean model only (stage C)",
 ]
 ASSUMPTIONS = [
-    "datagrams reach RecordManager.async_updates_from_response directly (the listener's duplicate-packet guard is C16's subject)",
+    "D ops reach RecordManager.async_updates_from_response directly; W ops go as bytes through the real AsyncListener. Reading of 'sequence of "
+    "response datagrams' where the listener's duplicate guard (C16's subject) is in front: the datagrams that count are those not byte-identical "
+    "to the last *processed* datagram of the socket or arriving 1000 ms or more after it -- an identical re-announcement 1 s or more after the "
+    "last processed copy must refresh the cache (cachecommon.WireRef)",
     "times are integer milliseconds, TTLs integers; the clock never goes backwards",
     "CPython dict behaves as an insertion-ordered map for keys with congruent __eq__/__hash__ (C20)",
 ]
@@ -27,9 +31,11 @@ ASSUMPTIONS = [
 def oracle(probes, ops, obs, res):
     """the C05 sentence evaluated on the implementation's observations; returns [(op index, sig, what)]"""
     ref = CC.Ref()
+    wire = CC.WireRef()
     found = []
     prev_ids = []
     prev_t = None
+    clock = None
     for idx, (op, o) in enumerate(zip(ops, obs)):
         k = op[0]
         if o["err"]:
@@ -38,7 +44,11 @@ def oracle(probes, ops, obs, res):
             found.append((idx, "C05:exception:%s" % o["err"], "op %r raised %s" % (op[:2], o.get("errmsg"))))
             break
         t = CC.op_time(op)
-        if k == "D":
+        if t is not None:
+            clock = t
+        if k == "W" and not wire_step(found, idx, "C05", wire, op, o, res):
+            pass       # suppressed by the duplicate guard, as the property's reading of the guard expects: nothing happens
+        elif k in ("D", "W"):
             info = ref.datagram(op[1], op[2])
             if res is not None:
                 _stats_d(res, op, info, prev_t)
@@ -79,7 +89,7 @@ def oracle(probes, ops, obs, res):
         if o["R"] is not None:
             for sig, what in CC.check_cross_paths(probes, o["R"]):
                 found.append((idx, sig, what))
-            for sig, what in CC.check_readers(ref, probes, o["R"]):
+            for sig, what in CC.check_readers(ref, probes, o["R"], clock):
                 found.append((idx, sig, what))
         prev_ids = o["ids"]
         if t is not None:
@@ -87,6 +97,35 @@ def oracle(probes, ops, obs, res):
         if len(found) > 12:
             break
     return found
+
+
+def wire_step(found, idx, prop, wire, op, o, res):
+    """a datagram through the real listener (W op): is it processed?  The property's side: yes unless it is byte-identical to the last
+    processed datagram and arrives less than 1000 ms after it (`CC.WireRef`).  A datagram the listener drops although it should be
+    processed is a violation (a refresh that never reaches the cache); one it processes although the guard could have dropped it is
+    C16's business, not this property's -- the reference follows the implementation there.  Returns: treat as processed?"""
+    now, recs = op[1], op[2]
+    expected = wire.expects(now, recs)
+    handed = o.get("handed") or []
+    if res is not None:
+        gap = "-" if wire.t is None else CC.gap_class(now - wire.t)
+        same = wire.data is not None and wire.data == CC.payload_of(recs)
+        res.count("wire:%s" % ("processed" if expected else "suppressed"))
+        res.nontriv("W/%s/%s/%s" % ("same" if same else "other", gap, "p" if expected else "s"))
+    if len(handed) > 1:
+        found.append((idx, "%s:listener:datagram-ingested-twice" % prop, "one datagram_received call handed %d messages to the record manager" % len(handed)))
+    if expected and not handed:
+        found.append((idx, "%s:listener:dropped-datagram" % prop,
+                      "the datagram at %d was not handed to the record manager although %s: its records are not refreshed" % (
+                          now, "no datagram was processed before" if wire.t is None else
+                          ("the last processed datagram (at %d, %d ms earlier) %s" % (wire.t, now - wire.t, "has the same bytes but lies 1 s or more back"
+                                                                                       if wire.data == CC.payload_of(recs) else "has other bytes")))))
+    if handed and handed[0] != now:
+        found.append((idx, "%s:listener:arrival-time" % prop, "the datagram arrived at %d but the message handed to the record manager says now=%r" % (now, handed[0])))
+    if expected or handed:
+        wire.processed(now, recs)
+        return True
+    return False
 
 
 def _stats_d(res, op, info, prev_t):
@@ -160,7 +199,7 @@ def run(ctx):
     tier, seed = ctx["tier"], ctx["seed"]
     wide = 4 if ctx.get("widened") else 1
     n_random = C.Budget(tier, 700, 5200).n * wide
-    deadline = t0 + (420 if tier == "thorough" else 34) * (2.5 if wide > 1 else 1)
+    deadline = t0 + (420 if tier == "thorough" else 50) * (2.0 if wide > 1 else 1)
     run_ = CC.Runner(res, "C05", ctx, oracle)
 
     # 1. corpus
@@ -189,8 +228,20 @@ def run(ctx):
             break
     res.exhaustive = complete
 
-    # 3. seeded random histories to depth 60 over the full vocabulary
+    # 3. datagrams as bytes through the real AsyncListener (duplicate guard, decode, hand-over) in front of the record manager
     probes_r = CC.vocab_probes()
+    n_wire = 0
+    for ops in CC.wire_window_histories():
+        run_.add("listener-window", probes_r, ops)
+        n_wire += 1
+    rng = C.rng_for(seed, "c05", "listener")
+    for h in range(max(20, n_random // 6)):
+        opts = {"wire": True, "listeners": [1, 2], "initial_listeners": rng.choice([0, 1]), "p_repeat": rng.choice([0.0, 0.3]),
+                "p_purge": rng.choice([0.1, 0.25]), "p_same_payload": rng.choice([0.3, 0.6])}
+        run_.add("listener-random", probes_r, CC.gen_history(rng, rng.choice([6, 12, 25]), opts))
+        n_wire += 1
+
+    # 4. seeded random histories to depth 60 over the full vocabulary
     rng = C.rng_for(seed, "c05", "random")
     done = 0
     for h in range(n_random):
@@ -204,15 +255,17 @@ def run(ctx):
             res.notes.append("random stream cut short by the time budget after %d of %d histories" % (done, n_random))
             break
     run_.finish()
-    res.rule = ("one evaluation = one op of a history (datagram via DNSOutgoing->DNSIncoming->RecordManager, purge via "
-                "AsyncEngine._async_cache_cleanup, listener add/remove) after which all seven readers over the probe vocabulary, the purge "
+    res.rule = ("one evaluation = one op of a history (datagram via DNSOutgoing->DNSIncoming->RecordManager with the wall clock moving on after "
+                "the decode, or as bytes through the real AsyncListener.datagram_received; purge via "
+                "AsyncEngine._async_cache_cleanup, listener add/remove) after which all eleven readers over the probe vocabulary, the purge "
                 "report and the listener calls are compared with the Lean model (stage C) and with the flat reference (stage O). "
-                "Streams: corpus; every history of length <= %s over the reduced alphabets (%d histories, %s); %d seeded random "
+                "Streams: corpus; every history of length <= %s over the reduced alphabets (%d histories, %s); @NWIRE@ histories through the listener (one payload 3-4 times at gaps around the 1 s duplicate guard with TTLs of 1-2 s, and random); %d seeded random "
                 "histories of depth 6-60 over %d record templates (case variants, PTR/SRV/TXT/A/AAAA/NSEC/HINFO, TTL in %r, flush bit, "
                 "in-datagram repeats, clock steps aimed at the 1 s window, expiry instants and the 10 s period). "
                 "non-trivial = distinct (records: kind, cached-before, TTL class, flush, repeat; gap class; flush hits) per datagram and "
                 "(expired count, gap class) per purge"
                 % ("/".join(str(p[2]) for p in plans), n_exh, "complete" if complete else "cut short", done, len(CC.VOCAB), CC.TTLS))
+    res.rule = res.rule.replace("@NWIRE@", str(n_wire))
     res.sample({"history": run_.histories, "example_ops": [["D", CC.T0, [CC.inst(_T1, 1, 0), CC.inst(_T1, 1, 0)], []], ["D", CC.T0 + 999, [CC.inst(_T1, 1, 0)], []], ["X", CC.T0 + 1000]]})
     res.count("wall_s", int(time.time() - t0))
     return res
